@@ -175,8 +175,24 @@ def rule_ctx_store(prog, em):
         for y in prog.edges.get(x, ()):
             if y not in from_exec:
                 from_exec.add(y); work.append(y)
+    done_parents = set()
     for bid in sorted(em._cw_direct & cw):
         b = prog.by_id[bid]
+        if b.is_closure and b.j.get('parent') in prog.by_id:
+            # the insert sits in a closure handed to a private locking helper (`self.with_map_mut(|map| { map.insert(..); })`):
+            # read in the enclosing body with that helper and the closure opened
+            pb = prog.by_id[b.j['parent']]
+            if pb.id in done_parents:
+                continue
+            def _ho(g):
+                return not g.is_closure and not g.j.get('reachable', g.is_pub) and any(
+                    re.search(r'Fn(Mut|Once)?\(', g.locals[k]['ty']) or 'closure@' in g.locals[k]['ty'] or re.match(r'^(&(mut )?)?[A-Z]\w{0,3}$', g.locals[k]['ty'])
+                    for k in range(1, g.arg_count + 1))
+            v = prog.view(pb, keep=lambda g: not _ho(g), tag='ctx-ho')
+            if getattr(v, 'is_view', False) and b.name in (v.j.get('inlined') or []):
+                done_parents.add(pb.id)
+                b = v
+                bid = pb.id
         ins = [c for c in b.live_calls if (c.callee or '').endswith('::insert') and 'context::ContextValue' in ' '.join(c.term['arg_tys'])]
         key = 'CTXSTORE|%s' % b.name
         others = [c for c in b.live_calls if re.match(r'^std::collections::HashMap::<K, V, S, A>::(remove|clear|entry|retain|extend|get_mut|drain)$', c.callee or '')]
